@@ -1409,10 +1409,14 @@ def parse_tree(
         mode_text = text[count:mode_end]
         if strict and mode_text.startswith(b"0"):
             raise ObjectFormatException(f"Invalid mode {mode_text!r}")
-        try:
-            mode = int(mode_text, 8)
-        except ValueError as exc:
-            raise ObjectFormatException(f"Invalid mode {mode_text!r}") from exc
+        # Like git (and the Rust implementation) accept octal digits only:
+        # int() would also take a sign, surrounding whitespace, "0o" and
+        # digit-group underscores, and values beyond 32 bits.
+        if not mode_text or mode_text.strip(b"01234567"):
+            raise ObjectFormatException(f"Invalid mode {mode_text!r}")
+        mode = int(mode_text, 8)
+        if mode > 0xFFFFFFFF:
+            raise ObjectFormatException(f"Invalid mode {mode_text!r}")
         name_end = text.index(b"\0", mode_end)
         name = text[mode_end + 1 : name_end]
 
